@@ -925,8 +925,15 @@ def run(ctx: core.Ctx):
 def replay(ctx: core.Ctx, rp: dict) -> int:
     """re-run the history of a replay file on the current tree and print every outcome next to what the file recorded"""
     r = rp.get("replay") or (rp.get("no_longer_checks") or [{}])[0].get("data", [{}])[0]
-    ops = r["ops_json"]
     scratch = f"/var/tmp/c14_replay_{os.getpid()}"
+    if "ops_json" not in r:          # the large-frame fault probes (no history in the op language)
+        print("recorded:", r.get("probes"))
+        try:
+            print("now:     ", big_fault_probes(scratch))
+        finally:
+            shutil.rmtree(scratch, ignore_errors=True)
+        return 0
+    ops = r["ops_json"]
     import logging
     logging.getLogger("sqlframe").setLevel(logging.ERROR)
     obs, snaps, exc = run_history(ops, scratch)
